@@ -153,6 +153,12 @@ def evaluate(case):
         _expect(got, exp, "grade-selection", "grade", f"a.grade{gs}")
         nontrivial = 0 < len(exp) < len(da)
         labels.append(f"form:{case['form']}")
+        if case["mode"] != "generic":
+            # grade selection inside a compiled (registered) function must select the same coefficients
+            def f(a):
+                return a.grade(gs)
+            reg = kd.to_dict(_call(lambda: alg.register(f)(x), "grade-selection", "grade"), op="grade")
+            _expect(reg, exp, "grade-selection", "grade", f"alg.register(lambda a: a.grade{gs})(a) with keys {ka}")
     elif kind == "laws":
         ab = _call(lambda: x * y, "law", "gp")
         for inv, anti in (("reverse", True), ("conjugate", True), ("involute", False)):
